@@ -18,12 +18,16 @@ import itertools
 import json
 import os
 import random
+import sys
 from fractions import Fraction
 
 from harness import enumhs as E
 from harness.sexp import Sym
 
 HERE = os.path.dirname(os.path.abspath(__file__))
+# recursive grammars yield programs that are hundreds of levels deep (unary chains): the default limit of
+# 1000 frames is hit by the implementation's own recursive hashing / printing and by the S-expression reader
+sys.setrecursionlimit(max(sys.getrecursionlimit(), 20000))
 MAX_LANG = {"quick": 1200, "thorough": 5000}
 FUEL = 10000000
 BIG = 1e99
@@ -519,6 +523,10 @@ def run_case(case, M, tier="quick"):
     if ans[0] == "undef":
         if err is None:
             corr.append(("model undefined (fuel or uncaught exception) where the implementation runs", ""))
+        return out
+    if err == "RecursionError":
+        # the interpreter's recursion limit, not the enumerator: inconclusive (like a time-out)
+        out["inconclusive"] = "impl-recursion-limit"
         return out
     if err is not None:
         corr.append(("implementation raises where the model runs", err))
